@@ -69,6 +69,11 @@ func init() {
 		Real: []string{"pkg/search (AlphaBeta, Quiescence, table, WriteLimited)", "pkg/board"}, Stub: []string{"recording wrapper around the real table; harness-supplied position-determined evaluator and exploration"},
 		Assumptions: []string{"differential baseline: the repo's own AlphaBeta with NoTranspositionTable", "sessions are excluded from the first search in which a repetition/fifty-move draw could arise inside the tree (sufficient condition: all game positions distinct, depth <= 5, clock+depth < 100)", "exact stores are sampled (every 1st..3rd) in the quick tier"},
 		Run: sb.SearchSessionC11})
+	register(&Spec{Prop: "C12", QuickRuns: 600, Level: "fault_enumeration",
+		Rule: "one run = one search (AlphaBeta full/selective/quiescence, Minimax, or AlphaBeta with SARGON's check-extension leaf) on a live board with history, with a fresh or pre-filled real table of tape-drawn size; its cancellation polls are counted (P) and the search is rerun with the context cancelled at exactly the n-th poll for every n<=P (P<=250), else the first 80, last 80 and 90 tape-drawn polls. evaluations = halted searches; each is judged on: ErrHalted and no result, every board getter unchanged, every store after the halt verified against the no-table value of the forked position, and two follow-up searches on the same table compared with a twin table on which the halted search never ran. Non-trivial = at least 10 polls enumerated; distinct = hash of the decoded trace",
+		Real: []string{"pkg/search (AlphaBeta, Quiescence, Minimax, table)", "cmd/sargon/sargon (OnePlyIfChecked)", "pkg/board", "seekerror/stdlib contextx.IsCancelled"}, Stub: []string{"context.Context replaced by a counting context whose Done() closes at the n-th call (the cancellation seam); harness-supplied evaluator/exploration; recording wrapper around the real table"},
+		Assumptions: []string{"cancellation is observed only through ctx.Done() polls (true for contextx.IsCancelled)", "follow-up comparison only where no repetition/fifty-move draw can arise in the tree and the root is not already drawn", "the S-A part (Handle.Halt, stop, timers reaching the search through a helper goroutine) is exercised by C15/C16/C04"},
+		Run: sb.SearchSessionC12})
 }
 
 // SelfTest validates the harness' own oracles; an error is harness trouble (exit 2).
